@@ -413,16 +413,19 @@ func (cc *Chaincode) noBatchHandler(
 
 	fn, args := stub.GetFunctionAndParameters()
 
+	// A query must not change the ledger: wrap the stub before anything runs on it, the
+	// authentication of the sender included (it records changed-key transactions
+	// reported by the ACL through the stub).
+	method := cc.Router().Method(fn)
+	if cc.Router().IsQuery(method) {
+		stub = newQueryStub(stub)
+	}
+
 	span.AddEvent("validating sender")
 	sender, invocationArgs, _, err := cc.validateAndExtractInvocationContext(stub, fn, args)
 	if err != nil {
 		span.SetStatus(codes.Error, "validating sender failed")
 		return shim.Error(err.Error())
-	}
-
-	method := cc.Router().Method(fn)
-	if cc.Router().IsQuery(method) {
-		stub = newQueryStub(stub)
 	}
 
 	span.AddEvent("validating arguments")
